@@ -198,6 +198,11 @@ def run_session(cfg, seed, script, fate_factory, phases_gap=None, yield_on_send=
                     return
 
         async def handler(client):
+            if "s" in ep:
+                # a further connection (a third party, or a forged but valid CONNECT): idle until the script ends
+                out.extra_handlers.append((client.remote_address(), client.remote_port))
+                await srv_done.wait()
+                return
             ep["s"] = client
             out.rnd["s"] = (client.sequence_mgr.initial_unreliable_id, client.connection_check, client.local_session_id)
             if cfg.start:
@@ -216,6 +221,7 @@ def run_session(cfg, seed, script, fate_factory, phases_gap=None, yield_on_send=
         out.accepted, out.send_errors = [], []
         out.connect_error = None
         out.rnd = {}
+        out.extra_handlers = []
         out.creds = creds
         out.epoch = sim.epoch
 
